@@ -14,8 +14,7 @@ FUNCTIONS = {
 }
 FUNCTIONS['kripke'] = ['Kripke.__init__', 'Kripke.labels', 'Kripke.states', 'Kripke.next', 'Kripke.transitions_iter',
                        'Kripke.transitions', 'Kripke.clone', 'Kripke.get_substructure']
-FUNCTIONS['ctl'] = ['_checkAtomicProposition', '_checkNot', '_checkEX', '_checkOr', '_checkStateFormula']
-FUNCTIONS['ctl_thorough'] = ['_checkEU']
+FUNCTIONS['ctl'] = ['_checkAtomicProposition', '_checkNot', '_checkEX', '_checkOr', '_checkStateFormula', '_checkEU']
 FUNCTIONS['rewrite'] = ['LNot'] + ['%s.get_equivalent_restricted_formula' % c for c in
                                    ('AtomicProposition', 'Not', 'A', 'E', 'X', 'F', 'G', 'Or', 'And', 'Imply', 'U', 'R')]
 PROPERTY_FUNCTIONS = {
@@ -38,7 +37,8 @@ TRUSTED = {
     'C13': [],
     'C01': ['documented CTL semantics of the restricted operators in fixpoint form (vf/pyvc/formula.py semantic_axioms; CGP00 ch.4; TB1-TB3) - audited end to end by the bounded check against the path-based reference',
             'contract of get_equivalent_restricted_formula (C05, bounded) and injectivity of printing (C09, bounded): memo keys are formula trees',
-            '_checkEU, _checkEG and modelcheck bodies are NOT under proof (contracts stated and used modularly; bounded only); compute_SCCs contract bounded (C12)',
+            '_checkEG and modelcheck bodies are NOT under proof (contract of _checkEG stated and used modularly; bounded only); compute_SCCs contract bounded (C12)',
+            'least-fixpoint principle of E(phi U psi) (second-order schema, trusted semantics) instantiated syntactically at the returned set',
             'precondition: Python None is not a state (KF-C19-1)'],
     'C05': ['documented path semantics as axioms over abstract evaluation points (vf/pyvc/formula_sem.py axioms(); logics.rst) incl. skolemised quantifiers',
             'induction hypothesis = the contract itself for recursive calls on subformulas (partial correctness)',
